@@ -52,7 +52,7 @@ def _simple_body(g: Func) -> bool:
     if g.node.decorator_list:
         return False
     a = g.node.args
-    return not (a.kwarg or a.kwonlyargs or a.posonlyargs)
+    return not (a.kwarg or a.posonlyargs)
 
 
 def _returns(g: Func):
@@ -137,13 +137,18 @@ def _expand(model: Model, f: Func, call: ast.Call, counter: list):
             return None
         bind[va] = ast.Tuple(elts=extra, ctx=ast.Load())
         params = params + [va]
+    kwonly = [x.arg for x in g.node.args.kwonlyargs]
     for k in call.keywords:
-        if k.arg not in rest or k.arg in bind:
+        if (k.arg not in rest and k.arg not in kwonly) or k.arg in bind:
             return None
         bind[k.arg] = k.value
     defaults = g.node.args.defaults
     for p, dflt in zip(params[len(params) - len(defaults):], defaults):
         bind.setdefault(p, dflt)
+    for x, dflt in zip(g.node.args.kwonlyargs, g.node.args.kw_defaults):
+        if dflt is not None:
+            bind.setdefault(x.arg, dflt)
+    params = params + kwonly
     if any(p not in bind for p in params):
         return None
     counter[0] += 1
@@ -301,7 +306,7 @@ class _ExprInline(ast.NodeTransformer):
             return n
         g, is_method = _callee(self.model, self.f, n)
         if g is None or g.qual == self.f.qual or not _simple_body(g) or any(k.arg is None for k in n.keywords) or any(isinstance(a, ast.Starred) for a in n.args) \
-                or g.node.args.vararg is not None:
+                or g.node.args.vararg is not None or g.node.args.kwonlyargs:
             return n
         body = [st for st in g.node.body if not (isinstance(st, ast.Expr) and isinstance(st.value, ast.Constant) and isinstance(st.value.value, str))]
         if len(body) != 1 or not isinstance(body[0], ast.Return) or body[0].value is None:
